@@ -264,6 +264,16 @@ def freeze_value(v, depth=0):
     """Function values inside a result (a helper that returns a lambda) are replaced by their observed behaviour."""
     if isinstance(v, types.FunctionType) and depth < 3:
         return FunValue(v, depth)
+    if isinstance(v, types.CoroutineType):
+        # what calling an `async def` gives: run it to its first suspension / its result
+        try:
+            v.send(None)
+        except StopIteration as done:
+            return ("coroutine returning", freeze_value(done.value, depth + 1))
+        except Exception as ex:  # noqa
+            return ("coroutine raising", type(ex).__name__)
+        v.close()
+        return ("coroutine suspended",)
     if type(v) in (list, tuple, Seq) and depth < 6:
         return type(v)(freeze_value(x, depth + 1) for x in v)
     return v
@@ -677,11 +687,17 @@ def symptom_of(why: str) -> str:
     return why[:40]
 
 
-def report_failing_input(ctx, prop: str, case, what: str, why: str, w):
+def value_kind(v) -> str:
+    if isinstance(v, tuple) and v and isinstance(v[0], str) and v[0].startswith("coroutine"):
+        return "a " + v[0]
+    return "a function" if isinstance(v, FunValue) else type(v).__name__
+
+
+def report_failing_input(ctx, prop: str, case, what: str, why: str, w, symptom=None):
     if prop not in _known_keys:
         _known_keys[prop] = core.load_known(prop)
     if case.key() not in _known_keys[prop]:
-        sym = symptom_of(why)
+        sym = symptom or symptom_of(why)
         n = _symptom_count.get((prop, sym), 0)
         _symptom_count[(prop, sym)] = n + 1
         if n >= MAX_PER_SYMPTOM:
@@ -727,6 +743,7 @@ def check_shot(ctx, prop: str, case: Case, rec, data, pending: list, extra_oracl
     w = dict(case.describe(), program=case.source(), call=rec.call_index + 1)
     oracle_ok = True
     why = None
+    symptom = None
     if rec.status == "ok":
         # history clause: after every captured name was rebound / deleted the recorded lambda is what it was
         if bridge.to_sx(rec.tree) != rec.sx_at_call:
@@ -756,6 +773,8 @@ def check_shot(ctx, prop: str, case: Case, rec, data, pending: list, extra_oracl
                     oracle_ok = False
                     why = "python computes %r, the recorded lambda `%s` computes %s" % (
                         ev, bridge.dump(rec.tree), repr(gv) if gs == "ok" else "raises " + str(gv))
+                    symptom = "value: python gives %s, the recorded lambda %s" % (
+                        value_kind(ev), value_kind(gv) if gs == "ok" else "raises " + str(gv))
                     break
             ctx.count("semantic_oracle", "compared" if n_cmp else "python-raises-on-all-data")
             if any(es == "ok" and isinstance(ev, FunValue) for es, ev in rec.expected):
@@ -781,7 +800,7 @@ def check_shot(ctx, prop: str, case: Case, rec, data, pending: list, extra_oracl
                 _reported_open.add(wkey)
                 print("KNOWN-FINDING: property=%s %s: `%s` -> %s" % (prop, wkey, case.lam, why[:300]))
         else:
-            report_failing_input(ctx, prop, case, "%s: `%s`%s -> %s" % (prop, case.lam, nth, why), why, w)
+            report_failing_input(ctx, prop, case, "%s: `%s`%s -> %s" % (prop, case.lam, nth, why), why, w, symptom)
     mi = rec.mi
     if rec.unreported:
         ctx.count("model", "closure-cell-not-reported-by-inspect(bound-only or CPython quirk)")
